@@ -277,7 +277,7 @@ static std::string canon_notifier(std::string const& s)
   };
   if (s.find("Dropped") != std::string::npos) { return "n:dropped:" + find_num_after("Dropped ") + ":tid" + find_num_after("from thread "); }
   if (s.find("blocking occurrences") != std::string::npos) { return "n:blocked:" + find_num_after("Experienced ") + ":tid" + find_num_after("on thread "); }
-  if (s.find("Allocated a new SPSC queue") != std::string::npos) { return "n:alloc"; }
+  if (s.find("Allocated a new SPSC queue") != std::string::npos) { return "n:alloc:" + find_num_after("capacity of ") + ":" + find_num_after("(previously "); }
   if (s.find("sink write failure") != std::string::npos) { return "n:wfail"; }
   if (s.find("sink flush failure") != std::string::npos) { return "n:ffail"; }
   if (s.find("init_backtrace") != std::string::npos) { return "n:nobt"; }
@@ -432,7 +432,20 @@ static uint64_t writer_bytes()
 #if H2_VARIANT <= 1
   return tc->get_spsc_queue_union().bounded_spsc_queue._writer_pos;
 #else
-  return tc->get_spsc_queue_union().unbounded_spsc_queue._producer->bounded_queue._writer_pos;
+  // unbounded: the producer's buffer changes on growth / shrink; a new buffer starts at position 0, so the bytes finished
+  // since the last look are the new buffer's position (plus nothing in the old one: a call writes one record, into one buffer)
+  static thread_local void const* last_node = nullptr;
+  static thread_local uint64_t base = 0;       // bytes finished in buffers the producer has left
+  static thread_local uint64_t last_pos = 0;   // position in `last_node` at the last look
+  auto* node = tc->get_spsc_queue_union().unbounded_spsc_queue._producer;
+  uint64_t const pos = node->bounded_queue._writer_pos;
+  if (node != last_node)
+  {
+    base += last_pos;
+    last_node = node;
+  }
+  last_pos = pos;
+  return base + pos;
 #endif
 }
 
@@ -541,9 +554,7 @@ static std::string exec_op(std::vector<std::string> const& w)
         a->last_writer_bytes = b1;
         if (quill::detail::LoggerBase::thread_context) { g_actor_has_ctx[a->id] = true; }
         r += " ev=" + std::to_string(g_evals - ev0);
-#if H2_VARIANT <= 1
         r += " bytes=" + std::to_string(b1 - b0);
-#endif
         a->result = r;
       });
     if (st == Actor::PARKED)
@@ -642,17 +653,24 @@ static std::string exec_op(std::vector<std::string> const& w)
 #if H2_VARIANT >= 2
     Actor* a = actor_of(w[1]);
     if (!need_idle(a)) { return "noop"; }
-    if (!g_actor_has_ctx.count(a->id)) { return "noop"; } // asking would register the context
     size_t cap = 0;
+    bool has_ctx = false;
     size_t const want = op == "SH" ? std::stoul(w[2]) : 0;
     a->drive(
       [&, a]
       {
-        if (op == "SH") { FE::shrink_thread_local_queue(want); }
-        cap = FE::get_thread_local_queue_capacity();
+        // asking for the context would register it: a thread that has not reached a queue-writing call yet is left alone
+        has_ctx = quill::detail::LoggerBase::thread_context != nullptr;
+        if (has_ctx)
+        {
+          if (op == "SH") { FE::shrink_thread_local_queue(want); }
+          cap = FE::get_thread_local_queue_capacity();
+          a->last_writer_bytes = writer_bytes();
+        }
         a->result = "ok";
       });
     a->result.clear();
+    if (!has_ctx) { return "noop"; }
     return "cap=" + std::to_string(cap);
 #else
     return "noop";
